@@ -99,17 +99,21 @@ Proof.
 Qed.
 
 (** the transcription of the loop, in closed form: children of every proper prefix (root
-    first), then children and this of the field *)
+    first), then children and this of the field; for the root itself, children twice *)
 Lemma triggers_for_path_eq p :
-  triggers_for_path p = map Children (proper_prefixes p) ++ [Children p; This p].
+  p <> [] -> triggers_for_path p = map Children (proper_prefixes p) ++ [Children p; This p].
 Proof.
-  unfold triggers_for_path. rewrite rev_app_distr, <- map_rev, rev_involutive. reflexivity.
+  intros Hp. unfold triggers_for_path, parents_up. destruct p as [|x p]; [congruence|].
+  rewrite rev_app_distr, <- map_rev, rev_involutive. reflexivity.
 Qed.
 
+Lemma triggers_for_path_root : triggers_for_path [] = [Children []; Children []; This []].
+Proof. reflexivity. Qed.
+
 Lemma triggers_for_path_prefixes p :
-  triggers_for_path p = map Children (prefixes p) ++ [This p].
+  p <> [] -> triggers_for_path p = map Children (prefixes p) ++ [This p].
 Proof.
-  rewrite triggers_for_path_eq, prefixes_split, map_app, <- app_assoc. reflexivity.
+  intros Hp. rewrite (triggers_for_path_eq p Hp), prefixes_split, map_app, <- app_assoc. reflexivity.
 Qed.
 
 Lemma in_track_field t r :
@@ -128,9 +132,13 @@ Qed.
 Lemma in_notified_field t p :
   In t (notified WField p) <-> (exists q, t = Children q /\ is_prefix q p = true) \/ t = This p.
 Proof.
-  cbn [notified]. rewrite triggers_for_path_prefixes, in_app_iff, in_map_iff. cbn [In]. split.
-  - intros [[q [<- Hq]]|[<-|[]]]; [left; exists q; split; [reflexivity | apply in_prefixes; exact Hq] | right; reflexivity].
-  - intros [[q [-> Hq]]| ->]; [left; exists q; split; [reflexivity | apply in_prefixes; exact Hq] | right; left; reflexivity].
+  cbn [notified]. destruct p as [|x p].
+  - rewrite triggers_for_path_root. cbn [In]. split.
+    + intros [<-|[<-|[<-|[]]]]; [left; exists []; auto | left; exists []; auto | right; reflexivity].
+    + intros [[q [-> Hq]]| ->]; [|auto]. destruct q; [auto | discriminate].
+  - rewrite triggers_for_path_prefixes by discriminate. rewrite in_app_iff, in_map_iff. cbn [In]. split.
+    + intros [[q [<- Hq]]|[<-|[]]]; [left; exists q; split; [reflexivity | apply in_prefixes; exact Hq] | right; reflexivity].
+    + intros [[q [-> Hq]]| ->]; [left; exists q; split; [reflexivity | apply in_prefixes; exact Hq] | right; left; reflexivity].
 Qed.
 
 Lemma wakes_k_spec k p r :
@@ -181,8 +189,9 @@ Proof.
   cbn [orb]. apply not_true_is_false. intros H. apply orb_true_iff in H.
   assert (Hc : existsb (fun t => trig_in t (track_field r)) (triggers_for_path p) = true).
   { apply existsb_exists. destruct H as [H|H].
-    - exists (This p). split; [|exact H]. rewrite triggers_for_path_eq, in_app_iff. right. cbn [In]. auto.
-    - exists (Children p). split; [|exact H]. rewrite triggers_for_path_eq, in_app_iff. right. cbn [In]. auto. }
+    - exists (This p). split; [|exact H]. apply (in_notified_field (This p) p). right. reflexivity.
+    - exists (Children p). split; [|exact H]. apply (in_notified_field (Children p) p). left.
+      exists p. split; [reflexivity | apply is_prefix_refl]. }
   congruence.
 Qed.
 
@@ -271,12 +280,13 @@ Qed.
 (** position at which a reader of [r] is woken by a write at [p]: a reader of an ancestor
     (or of the field itself) at its own depth, a reader of a proper descendant last *)
 Theorem wake_pos_spec p r :
+  p <> [] ->
   wake_pos p r =
     if is_prefix r p then Some (length r)
     else if is_prefix p r then Some (S (length p))
     else None.
 Proof.
-  unfold wake_pos, wake_pos_k. cbn [notified]. rewrite triggers_for_path_prefixes.
+  intros Hp. unfold wake_pos, wake_pos_k. cbn [notified]. rewrite (triggers_for_path_prefixes p Hp).
   destruct (is_prefix r p) eqn:Hrp.
   - (* Children r, at index length r *)
     apply first_hit_spec. exists (length r), (Children r).
@@ -308,18 +318,38 @@ Proof.
       apply trig_in_In in Ht.
       assert (Hw : wakes p r = true).
       { unfold wakes. apply wakes_k_spec. exists t. split; [|exact Ht]. cbn [notified].
-        rewrite triggers_for_path_prefixes. exact Hin. }
+        rewrite (triggers_for_path_prefixes p Hp). exact Hin. }
       apply notified_iff_related in Hw. destruct Hw; congruence.
 Qed.
 
 (** readers of ancestors of the written field are woken before readers of the field, and
     those before readers of its descendants; among ancestors, the shallower one first *)
+(** for the root's own path (a type-erased handle of the store): children, children, this *)
+Lemma wake_pos_root r : wake_pos [] r = match r with [] => Some 0 | _ :: _ => Some 2 end.
+Proof.
+  unfold wake_pos, wake_pos_k. cbn [notified]. rewrite triggers_for_path_root.
+  destruct r as [|x r]; [reflexivity|].
+  cbn [first_hit].
+  assert (H1 : trig_in (Children []) (track_field (x :: r)) = false).
+  { apply not_true_is_false. intros H. apply trig_in_In, in_track_field in H.
+    destruct H as [[q [H _]]|H]; discriminate. }
+  assert (H2 : trig_in (This []) (track_field (x :: r)) = true).
+  { apply trig_in_In, in_track_field. left. exists []. split; reflexivity. }
+  rewrite H1, H2. reflexivity.
+Qed.
+
 Theorem ancestors_before_descendants p r1 r2 i1 i2 :
   wake_pos p r1 = Some i1 -> wake_pos p r2 = Some i2 ->
   length r1 <= length r2 ->
   i1 <= i2 /\ (is_prefix r1 p = true -> length r1 < length r2 -> i1 < i2).
 Proof.
-  rewrite !wake_pos_spec. intros H1 H2 Hlen.
+  destruct p as [|x0 p0].
+  { rewrite !wake_pos_root. intros H1 H2 Hlen.
+    destruct r1 as [|a r1]; destruct r2 as [|b r2]; inversion H1; inversion H2; subst;
+      cbn [length] in *; split; try lia; intros Hp; try discriminate; lia. }
+  remember (x0 :: p0) as p eqn:Heqp.
+  assert (Hp : p <> []) by (rewrite Heqp; discriminate). clear Heqp x0 p0.
+  rewrite !(wake_pos_spec p _ Hp). intros H1 H2 Hlen.
   destruct (is_prefix r1 p) eqn:A1; destruct (is_prefix r2 p) eqn:A2.
   - inversion H1; inversion H2; subst. split; [lia | intros _ ?; lia].
   - destruct (is_prefix p r2) eqn:B2; [|discriminate].
@@ -333,6 +363,17 @@ Proof.
   - destruct (is_prefix p r1) eqn:B1; [|discriminate].
     destruct (is_prefix p r2) eqn:B2; [|discriminate].
     inversion H1; inversion H2; subst. split; [lia | intros ?; discriminate].
+Qed.
+
+(** a reader is woken at some position iff it is related to the written path *)
+Lemma wake_pos_some p r : (exists i, wake_pos p r = Some i) <-> wakes p r = true.
+Proof.
+  unfold wake_pos, wake_pos_k, wakes, wakes_k. split.
+  - intros [i H]. apply first_hit_spec in H. destruct H as [k [t [_ [Hn [Ht _]]]]].
+    apply existsb_exists. exists t. split; [eapply nth_error_In; exact Hn | exact Ht].
+  - intros H. destruct (first_hit (notified WField p) (track_field r) 0) as [i|] eqn:E; [eauto|].
+    exfalso. apply existsb_exists in H. destruct H as [t [Hin Ht]].
+    rewrite (proj1 (first_hit_none _ _ _) E t Hin) in Ht. discriminate.
 Qed.
 
 Example ancestors_before_descendants_nontrivial :
